@@ -82,8 +82,16 @@ def worker(payload):
                 o8["n"] += 1
                 if len(mb["t"]) > 1:
                     o8["nontrivial"] += 1
+            # C05 on derived functions: a function that was already in use answers like a brand-new function over
+            # the method set that results from every change made since (to itself or to a linked ancestor)
+            o5 = orc("C05")
+            if op[1] in used:
+                o5["n"] += 1
+                o5["nontrivial"] += 1
             if {"o": e["o"], "t": e["t"]} != {"o": mb["o"], "t": mb["t"]}:
                 wit = {"kind": "graph", "world": w.desc, "scenario": {**sc, "ops": sc["ops"][: j + 1]}, "op_index": j, "impl": {"o": mb["o"], "t": mb["t"]}, "expected": {"o": e["o"], "t": e["t"]}}
+                if op[1] in used:
+                    o5["viol"].append({"law": "a function already in use does not answer like a brand-new function over the method set resulting from the changes made since", **wit})
                 o16["viol"].append({"law": "a function in use does not behave like the overlay of its ancestors' and its own current definitions", **wit})
                 if any(bodies.get(t[0]) == "recurse" for t in e["t"] + mb["t"]):
                     orc("C08")["viol"].append({"law": "recurse did not re-enter the function that was called (behaviour differs from a fresh function over the overlay)", **wit})
